@@ -45,6 +45,7 @@ func (c02) Nontrivial(c *sim.Case, st *sim.Stats) bool {
 
 func (c02) Gen(r *sim.Rand, c *sim.Case, tier string) {
 	g := world.NewGen(r)
+	g.Extra = true
 	g.Alpha = []int{0, 4}
 	g.Fam = world.FBody | world.FImage | world.FHF | world.FTable
 	for _, f := range []int{world.FList, world.FNote, world.FProp, world.FPage, world.FParaFmt} {
